@@ -101,7 +101,12 @@ fn family_match(r: &mut StdRng, scn: usize, fam: &str, n_req: usize, out: &mut V
       let depth = r.gen_range(0..=cfg.depth);
       (gen_query(r, depth, &cfg), if chance(r, 1, 4) { Some(gen_filter(r, 1, true, "")) } else { None })
     };
-    let req = base_request(&q, filt.as_ref(), n_slots + 5, "bm25");
+    // the matching documents do not depend on the execution strategy (the limit covers them all)
+    let exec = *pick(r, &["bm25", "bm25", "wand", "bmw"]);
+    let mut req = base_request(&q, filt.as_ref(), n_slots + 5, exec);
+    if exec == "bmw" && chance(r, 1, 2) {
+      req["bmw_block_size"] = json!(r.gen_range(1..=4));
+    }
     let res = run_search(&reader, &req);
     let filters: Vec<Value> = filt.iter().map(|f| abstract_filter(f, &mut dict)).collect();
     searches.push(json!({
